@@ -159,7 +159,15 @@ class Interp:
             rc, out = common.sh(["bash", "extract.sh"], cwd=common.COQ / "Core", timeout=600)
             if rc != 0:
                 raise RuntimeError("cannot build the extracted interpreter: " + out[-500:])
-        self.p = subprocess.Popen([INTERP], stdin=subprocess.PIPE, stdout=subprocess.PIPE, text=True, bufsize=1)
+        import time
+        for attempt in range(20):
+            try:
+                self.p = subprocess.Popen([INTERP], stdin=subprocess.PIPE, stdout=subprocess.PIPE, text=True, bufsize=1)
+                break
+            except OSError:  # ETXTBSY while another check replaces the binary
+                time.sleep(0.5)
+        else:
+            raise RuntimeError("cannot start the extracted interpreter")
         self.sent = 0
 
     def ask(self, line: str) -> str:
